@@ -164,6 +164,7 @@ func checkDependencies(rec *stats.Recorder, c depCase) string {
 	chmodAll(filepath.Join(work, "app.first"))
 	must(os.RemoveAll(filepath.Join(work, "app.first")))
 	// compile: library packages with go build, the three generated all-imports packages the way upstream compiles them
+	defer trimCache(mod)
 	pkgs, err := run(mod, "go", "list", "./"+base+"/...")
 	if err != nil {
 		return "go list failed on the generated trees:\n" + compileErrors(pkgs)
